@@ -255,21 +255,6 @@ Definition npos : nat := 58.
 Definition vals : list N := map N.of_nat (seq 1 31).
 Definition atoms : list atom :=
   flat_map (fun d => map (fun v => (d, v)) vals) (seq 0 npos).
-Definition later (a : atom) : list atom :=
-  filter (fun b => Nat.ltb (fst b) (fst a)) atoms.
-Definition all_pats : list (list atom) :=
-  [] :: flat_map (fun a => [a] :: map (fun b => [a; b]) (later a)) atoms.
-
-(** The fused computation: never builds the list of all syndromes. *)
-Definition table : list (nat * N) := map (fun a => (fst a, syn1 a)) atoms.
-Definition row (tbl : list (nat * N)) (a : nat * N) : list N :=
-  snd a :: map (fun b => N.lxor (snd a) (snd b))
-             (filter (fun b => Nat.ltb (fst b) (fst a)) tbl).
-Definition all_distinct_check : bool :=
-  let tbl := table in
-  match fold_left (fun acc a => fold_left nd_step (row tbl a) acc) tbl
-          (nd_step (Some (PositiveMap.empty unit)) 0)
-  with Some _ => true | None => false end.
 
 Lemma bd_fold_left_flat_map : forall (A B C : Type) (f : C -> B -> C) (g : A -> list B) l acc,
   fold_left f (flat_map g l) acc = fold_left (fun acc x => fold_left f (g x) acc) l acc.
@@ -306,26 +291,54 @@ Proof.
   cbn [flat_map]. rewrite map_app, IH. reflexivity.
 Qed.
 
-Lemma bd_row_eq : forall a,
-  row table (fst a, syn1 a) = map xsyn ([a] :: map (fun b => [a; b]) (later a)).
-Proof.
-  intro a. unfold row, table, later. cbn [fst snd map].
-  rewrite bd_filter_map, !map_map. cbn [fst].
-  f_equal.
-  - cbn [xsyn fold_right]. symmetry. apply N.lxor_0_r.
-  - apply map_ext. intro b. cbn [xsyn fold_right snd]. rewrite N.lxor_0_r. reflexivity.
-Qed.
+(** Generic in the list of atoms, so that nothing below is tempted to compute. *)
+Section Table.
+  Variable ats : list atom.
 
-Lemma bd_check_eq :
-  all_distinct_check = nodup_check_from (map xsyn all_pats) (Some (PositiveMap.empty unit)).
-Proof.
-  unfold all_distinct_check, nodup_check_from, all_pats. cbv zeta.
-  cbn [map fold_left]. change (xsyn []) with 0.
-  rewrite bd_map_flat_map, bd_fold_left_flat_map.
-  unfold table at 2. rewrite bd_fold_left_map.
-  f_equal.
-  apply bd_fold_left_ext. intros c a. rewrite bd_row_eq. reflexivity.
-Qed.
+  Definition g_later (a : atom) : list atom :=
+    filter (fun b => Nat.ltb (fst b) (fst a)) ats.
+  Definition g_all_pats : list (list atom) :=
+    [] :: flat_map (fun a => [a] :: map (fun b => [a; b]) (g_later a)) ats.
+
+  (** The fused computation: never builds the list of all syndromes. *)
+  Definition g_table : list (nat * N) := map (fun a => (fst a, syn1 a)) ats.
+  Definition row (tbl : list (nat * N)) (a : nat * N) : list N :=
+    snd a :: map (fun b => N.lxor (snd a) (snd b))
+               (filter (fun b => Nat.ltb (fst b) (fst a)) tbl).
+  Definition g_check : bool :=
+    let tbl := g_table in
+    match fold_left (fun acc a => fold_left nd_step (row tbl a) acc) tbl
+            (nd_step (Some (PositiveMap.empty unit)) 0)
+    with Some _ => true | None => false end.
+
+  Lemma bd_row_eq : forall a,
+    row g_table (fst a, syn1 a) = map xsyn ([a] :: map (fun b => [a; b]) (g_later a)).
+  Proof.
+    intro a. unfold row, g_table, g_later. cbn [fst snd map].
+    rewrite bd_filter_map, !map_map. cbn [fst].
+    f_equal.
+    - cbn [xsyn fold_right]. symmetry. apply N.lxor_0_r.
+    - apply map_ext. intro b. cbn [xsyn fold_right snd]. rewrite N.lxor_0_r. reflexivity.
+  Qed.
+
+  Lemma bd_check_eq :
+    g_check = nodup_check_from (map xsyn g_all_pats) (Some (PositiveMap.empty unit)).
+  Proof.
+    unfold g_check, nodup_check_from, g_all_pats. cbv zeta.
+    cbn [map fold_left]. change (xsyn []) with 0.
+    rewrite bd_map_flat_map, bd_fold_left_flat_map.
+    unfold g_table at 2. rewrite bd_fold_left_map.
+    rewrite (bd_fold_left_ext _ _ _
+      (fun acc x => fold_left nd_step
+         (map xsyn ([x] :: map (fun b : atom => [x; b]) (g_later x))) acc)).
+    - reflexivity.
+    - intros c a. rewrite bd_row_eq. reflexivity.
+  Qed.
+End Table.
+
+Definition later : atom -> list atom := g_later atoms.
+Definition all_pats : list (list atom) := g_all_pats atoms.
+Definition all_distinct_check : bool := g_check atoms.
 
 (** The enumeration.  Checked once, at [Qed]. *)
 Lemma weight2_syndromes_nodup : all_distinct_check = true.
@@ -333,7 +346,8 @@ Proof. vm_cast_no_check (eq_refl true). Qed.
 
 Lemma bd_all_pats_nodup : NoDup (map xsyn all_pats).
 Proof.
-  apply bd_nodup_check_sound. rewrite <- bd_check_eq. exact weight2_syndromes_nodup.
+  apply bd_nodup_check_sound. unfold all_pats. rewrite <- bd_check_eq.
+  exact weight2_syndromes_nodup.
 Qed.
 
 Lemma bd_nodup_map_inj : forall (A B : Type) (f : A -> B) l x y,
@@ -369,7 +383,7 @@ Qed.
 
 Lemma bd_in_later : forall a b, good_atom b -> (fst b < fst a)%nat -> In b (later a).
 Proof.
-  intros a b Hb Hlt. unfold later. apply filter_In. split.
+  intros a b Hb Hlt. unfold later, g_later. apply filter_In. split.
   - apply bd_in_atoms. exact Hb.
   - apply Nat.ltb_lt. exact Hlt.
 Qed.
@@ -384,7 +398,7 @@ Fixpoint pat_ok (bound : nat) (p : list atom) : Prop :=
 Lemma bd_in_all_pats : forall bound p,
   pat_ok bound p -> (length p <= 2)%nat -> In p all_pats.
 Proof.
-  intros bound p Hok Hlen. unfold all_pats.
+  intros bound p Hok Hlen. unfold all_pats, g_all_pats. fold later.
   destruct p as [|a [|b [|c r]]].
   - left. reflexivity.
   - right. apply in_flat_map. exists a. destruct Hok as (Ha & _ & _). split.
